@@ -556,6 +556,81 @@ static void space_extreme(void)
 }
 
 
+/* ------------------------------------------------------------------ work proportional to the bytes present (C13) */
+
+#include <time.h>
+static double cpu_now(void)
+{
+	struct timespec ts;
+	clock_gettime(CLOCK_PROCESS_CPUTIME_ID, &ts);
+	return ts.tv_sec + ts.tv_nsec * 1e-9;
+}
+
+/* Headers as large as the format allows with every byte present: listing must stay within a CPU budget that is linear in the
+ * input (1.5 s + 1 us per byte; the unchanged library needs a few milliseconds per MiB, so the margin is two orders of magnitude
+ * and the verdict does not depend on machine load) */
+static void space_work(void)
+{
+	static uint8_t big[(1u << 20) + (1u << 18)];
+	static uint8_t body[(1u << 20) + 16];
+	static const char *FAM[] = { "upper-case letters", "lower-case letters", "separators only", "dots only", "'../' repeated", "'A/' repeated (one-letter components)",
+	                             "'./' repeated", "'|' only", "0x80 bytes", "upper-case with one lower-case letter at the end", "digits" };
+	static const uint8_t OSES[] = { 'M', 'U', 0, 'm', '2' };
+	int fam, oi, where, kind, level;
+	double worst = 0;
+	for (level = 3; level >= 1; --level)
+	for (fam = 0; fam < 11; ++fam)
+	for (oi = 0; oi < 5; ++oi)
+	for (where = 0; where < 3; ++where)          /* 0: file name header, 1: path header, 2: both halves */
+	for (kind = 0; kind < K_COUNT; kind += 2) {
+		size_t L = level == 3 ? (1u << 20) - 200 : 65000, i, n;
+		ref_hdr f;
+		obs_t o;
+		double t0, dt, budget;
+		if (level == 1 && (fam > 5 || oi > 1)) continue;
+		if (!vf_case("level-%d header with %zu bytes of %s in %s, OS '%c', %s: CPU time of listing", level, L, FAM[fam],
+		             where == 0 ? "the name header" : where == 1 ? "the path header" : "name and path headers", OSES[oi] ? OSES[oi] : '0', KIND_NAME[kind])) continue;
+		for (i = 0; i < L; ++i) {
+			uint8_t c;
+			switch (fam) {
+			case 0: c = (uint8_t) ('A' + i % 26); break;
+			case 1: c = (uint8_t) ('a' + i % 26); break;
+			case 2: c = 0xFF; break;
+			case 3: c = '.'; break;
+			case 4: c = i % 3 == 2 ? 0xFF : '.'; break;
+			case 5: c = i % 2 ? 0xFF : 'A'; break;
+			case 6: c = i % 2 ? 0xFF : '.'; break;
+			case 7: c = '|'; break;
+			case 8: c = 0x80; break;
+			case 9: c = i + 1 == L ? 'z' : (uint8_t) ('A' + i % 26); break;
+			default: c = (uint8_t) ('0' + i % 10); break;
+			}
+			body[i] = c;
+		}
+		memset(&f, 0, sizeof f);
+		f.level = level; memcpy(f.method, "-lh0-", 5); f.name = f.area = (const uint8_t *) ""; f.os = OSES[oi];
+		f.time_raw = level <= 1 ? 0x3C21A000u : 1262304000u;
+		if (level == 1) { f.name = (const uint8_t *) "N"; f.name_len = 1; }
+		if (where == 0) { f.ext[0].type = 1; f.ext[0].data = body; f.ext[0].len = L; f.next = 1; if (fam >= 2 && fam <= 6) for (i = 0; i < L; ++i) if (body[i] == 0xFF) body[i] = '\\'; }
+		else if (where == 1) { f.ext[0].type = 2; f.ext[0].data = body; f.ext[0].len = L; f.ext[1].type = 1; f.ext[1].data = (const uint8_t *) "NAME"; f.ext[1].len = 4; f.next = 2; }
+		else { f.ext[0].type = 2; f.ext[0].data = body; f.ext[0].len = L / 2; f.ext[1].type = 1; f.ext[1].data = body + L / 2; f.ext[1].len = L - L / 2; f.next = 2; }
+		if (level <= 2 && f.next == 2 && where == 2) { f.ext[0].len = 32000; f.ext[1].len = 32000; }
+		n = ref_hdr_encode(&f, big, sizeof big);
+		if (!n) { printf("HARNESS encoder refused the %zu-byte header\n", L); continue; }
+		t0 = cpu_now();
+		walk(kind, big, n, 0, 0, &o);
+		dt = cpu_now() - t0;
+		budget = 1.5 + 1e-6 * (double) n;
+		if (dt > worst) worst = dt;
+		if (dt > budget) vf_viol("c13-work-not-linear", "%s: listing a %zu-byte archive took %.2f s of CPU (budget %.2f s = 1.5 s + 1 us per byte present)", KIND_NAME[kind], n, dt, budget);
+		if (o.hang) vf_viol("c13-zero-progress-loop", "%s: maximal header", KIND_NAME[kind]);
+		if (o.peak > (8u << 20) + 2 * n) vf_viol("c13-heap", "%s: peak live heap %zu for %zu input bytes (maximal header)", KIND_NAME[kind], o.peak, n);
+		vf_outcome(vf_mix(o.members, o.hdr[0]));
+		vf_nontrivial(vf_mix(fam * 64 + oi * 8 + where, level * 8 + kind) + 1);
+	}
+	printf("NOTE work-shard%d=worst-cpu-seconds:%.3f\n", VF.shard_i, worst);
+}
+
 /* ------------------------------------------------------------------ verdicts (C07) */
 
 static uint8_t VARC[1 << 18];
@@ -871,6 +946,7 @@ int main(int argc, char **argv)
 	else if (!strcmp(VF.space, "sfx")) space_sfx();
 	else if (!strcmp(VF.space, "extreme")) space_extreme();
 	else if (!strcmp(VF.space, "verdict")) space_verdict();
+	else if (!strcmp(VF.space, "work")) space_work();
 	else if (!strcmp(VF.space, "mutate")) space_mutate();
 	else { fprintf(stderr, "unknown space %s\n", VF.space); return 2; }
 	vf_done();
